@@ -1,35 +1,11 @@
 /- L0 facts about the generated KeltnerChannel (any `[Scalar F]`). -/
+import TaRs.Lemmas.Core.KeltnerChannel
 import TaRs.Gen.KeltnerChannel
 import TaRs.Lemmas.ExponentialMovingAverage
 import TaRs.Lemmas.AverageTrueRange
 namespace TaRs.Gen.KeltnerChannel
 open TaRs TaRs.Rs
 variable {F : Type} [Scalar F]
-
-/-- the state `new(period, multiplier)` builds -/
-def fresh (p : Nat) (m : F) : KeltnerChannel F :=
-  { period := p, multiplier := m, atr := AverageTrueRange.fresh p,
-    ema := ExponentialMovingAverage.fresh p }
-
-/-- component well-formedness + agreement of the three stored copies of `period` -/
-structure WF (s : KeltnerChannel F) : Prop where
-  atr : AverageTrueRange.WF s.atr
-  ema : ExponentialMovingAverage.WF s.ema
-  ema_period : s.ema.period = s.period
-  atr_period : s.atr.ema.period = s.period
-
-/-- `new` rejects exactly period 0 and never panics (`AverageTrueRange::new(period)?` first, then
-    `ExponentialMovingAverage::new(period)?`; both fail in the same way on the same `period`, so
-    the order is not observable). -/
-theorem new_eq (p : Nat) (m : F) :
-    (new p m : Res (KeltnerChannel F)) =
-      if p = 0 then .err .InvalidParameter else .ok (fresh p m) := by
-  unfold new
-  rw [AverageTrueRange.new_eq, ExponentialMovingAverage.new_eq]
-  by_cases h0 : p = 0 <;> simp [h0, bind, Res.bind, fresh]
-
-theorem fresh_wf (p : Nat) (m : F) (hp : 0 < p) : WF (fresh p m : KeltnerChannel F) :=
-  ⟨AverageTrueRange.fresh_wf p hp, ExponentialMovingAverage.fresh_wf p hp, rfl, rfl⟩
 
 /-- the output triple: `average`, `average + atr * multiplier`, `average − atr * multiplier` -/
 def mkOut (average atr multiplier : F) : KeltnerChannelOutput F :=
@@ -108,9 +84,5 @@ theorem nextBar_total (s : KeltnerChannel F) (b : Bar F) (h : WF s) :
   refine ⟨_, nextBar_eq s b, ⟨⟨step_wf _ _ h.atr.ema⟩, step_wf _ _ h.ema, ?_, ?_⟩, rfl, rfl⟩
   · exact (ExponentialMovingAverage.step_period _ _).trans h.ema_period
   · exact (ExponentialMovingAverage.step_period _ _).trans h.atr_period
-
-theorem period_fn_eq (s : KeltnerChannel F) : s.period_fn = s.period := rfl
-
-theorem multiplier_fn_eq (s : KeltnerChannel F) : s.multiplier_fn = s.multiplier := rfl
 
 end TaRs.Gen.KeltnerChannel
